@@ -274,6 +274,9 @@ def isPerm (a b : List Span) : Bool := a.length == b.length && a.all (fun s => a
 
 def showVals (l : List RV) : String := "{" ++ ",".intercalate (l.map fun v => enc v.2) ++ "}"
 
+def showRoots (s : Summary) : String :=
+  "[" ++ ",".intercalate (s.roots.map fun r => (r.map fun v => enc v.2).getD "absent") ++ "]"
+
 def checkKey (m : MSt) (sum : Summary) (k : String) : List Fail :=
   let below (s : Summary) := s.distinct < cap
   let fails := m.seen.filterMap fun o =>
@@ -291,7 +294,7 @@ def checkKey (m : MSt) (sum : Summary) (k : String) : List Fail :=
                what := s!"value sets differ only by the empty string, both traces get key {enc k}" : Fail }
       else
         some { prop := "C11", sig := "C11:key-collision:distinct-value-sets",
-               what := s!"different value sets {" ".intercalate (sum.sets.map showVals)} / {" ".intercalate (o.sum.sets.map showVals)} (reference renderings), same key {enc k}" : Fail }
+               what := s!"different value sets {" ".intercalate (sum.sets.map showVals)} root={showRoots sum} / {" ".intercalate (o.sum.sets.map showVals)} root={showRoots o.sum} (reference renderings), same key {enc k}" : Fail }
     else none
   fails.take 1
 
